@@ -44,10 +44,11 @@ class Cfg:
     debug: bool = False
     smallest: bool = False
     compressed: bool = False
+    marked: bool = False
 
-    def start(self) -> dw.W:
+    def start(self):
         cls = dw.WB if self.compressed else dw.W
-        return cls(self.prefix, self.patterns, self.alphabet, False, self.stats)
+        return cls(self.prefix, self.patterns, self.alphabet, False, self.stats, self.marked)
 
     def make_pack(self):
         return dw.make_pack(self.pack)
@@ -58,7 +59,7 @@ class Cfg:
     def sid(self) -> str:
         opts = "".join(
             f
-            for f, on in (("V", self.expand_verified), ("D", self.debug), ("S", self.smallest), ("Z", self.compressed))
+            for f, on in (("V", self.expand_verified), ("D", self.debug), ("S", self.smallest), ("Z", self.compressed), ("M", self.marked))
             if on
         )
         return f"{self.start().sid()}//{self.pack}//{self.db}" + (f"//{opts}" if opts else "")
